@@ -693,7 +693,12 @@ func parseShortTermRPS(r *bits.EBSPReader, idx, numSTRefPicSets byte, sps *SPS) 
 	if interRPSPredFlag {
 		deltaIdx := byte(1)
 		if idx == numSTRefPicSets { // Slice header
-			deltaIdx = byte(r.ReadExpGolomb() + 1)
+			deltaIdxMinus1 := r.ReadExpGolomb()
+			if deltaIdxMinus1 >= uint(idx) {
+				r.SetError(fmt.Errorf("deltaIdx > idx in parseShortTermRPS"))
+				return stps
+			}
+			deltaIdx = byte(deltaIdxMinus1 + 1)
 			// parse delta_idx_minus1
 		}
 		if deltaIdx > idx {
